@@ -158,6 +158,41 @@ def search_two_routes():
     verdicts = {fn: [first + k * len(calls) + i in flagged for i in range(len(calls))] for k, fn in enumerate(("top", "quoted", "plain"))}
     if not (verdicts["top"] == verdicts["quoted"] == verdicts["plain"]):
         return f"Unpack[...] annotations on *args/**kwargs: calls {calls} are flagged {verdicts} (imported function with string annotations / nested def with string annotations / nested def with plain annotations)"
+    # a module-level class shadowing a builtin name, used in quoted annotations: both routes must resolve it to the module's class
+    name = "verif_c13_lib_shadow"
+    lib = ("class ConnectionError:\n    def __init__(self, code: int) -> None:\n        self.code = code\n"
+           "def top(e: 'ConnectionError', n: 'int' = 0) -> 'ConnectionError':\n    return e\n")
+    _install_module(name, lib)
+    try:
+        code = (f"from {name} import top, ConnectionError\nimport builtins\n"
+                "def use() -> None:\n    top(ConnectionError(1))\n    top(builtins.ConnectionError())\n    reveal_type(top(ConnectionError(1)))\n"
+                "def outer() -> None:\n    def nested(e: 'ConnectionError', n: 'int' = 0) -> 'ConnectionError':\n        return e\n"
+                "    nested(ConnectionError(1))\n    nested(builtins.ConnectionError())\n    reveal_type(nested(ConnectionError(1)))\n")
+        res = check_code(code)
+    finally:
+        sys.modules.pop(name, None)
+    flagged = {f["lineno"] for f in res if f.get("code") is not None and f["code"].name in ("incompatible_call", "incompatible_argument")}
+    rev = {f["lineno"]: f["description"] for f in res if f.get("code") is not None and f["code"].name == "reveal_type"}
+    if (4 in flagged, 5 in flagged) != (10 in flagged, 11 in flagged) or (4 in flagged) or (5 not in flagged):
+        return (f"quoted annotation 'ConnectionError' where the module defines its own class of that name: runtime-object route flags lines {sorted(flagged & {4, 5})}, "
+                f"def-statement route flags {sorted(flagged & {10, 11})} (expected: only the builtins.ConnectionError() argument, on both routes)")
+    if ("builtins" in rev.get(6, "")) != ("builtins" in rev.get(12, "")):
+        return f"return annotation 'ConnectionError': runtime-object route reveals {rev.get(6)!r}, def-statement route {rev.get(12)!r}"
+    # an async def containing a nested *sync* generator helper is a coroutine function on both routes, not an async generator
+    name = "verif_c13_lib_agen"
+    body = "    def helper():\n        yield 1\n    return sum(helper()) + n\n"
+    _install_module(name, "async def top(n: int) -> int:\n" + body)
+    try:
+        code = (f"from {name} import top\n"
+                "async def use_top() -> int:\n    return await top(1)\n"
+                "async def outer() -> int:\n    async def nested(n: int) -> int:\n" + body.replace("    ", "        ") + "    return await nested(1)\n"
+                "def kinds() -> None:\n    reveal_type(top(1))\n")
+        res = check_code(code)
+    finally:
+        sys.modules.pop(name, None)
+    bad = sorted((f["lineno"], f["code"].name) for f in res if f.get("code") is not None and f["code"].name in ("unsupported_operation", "incompatible_return_value", "incompatible_call"))
+    if bad:
+        return f"async def with a nested sync generator helper: awaiting it is diagnosed {bad} (line 3: runtime-object route, line 9: def-statement route); it is a coroutine function on both"
     return None
 
 
